@@ -142,25 +142,27 @@ private:
     closest_direction(RasterIndex i, RasterIndex j, const BBoxInt boundary) const
     {
         int n, s, e, w;
-        int mindist = std::numeric_limits<int>::max();
+        // exact distances are compared here and over the infected cells;
+        // the reported value is rounded once, at the end of action()
+        double mindist = std::numeric_limits<double>::max();
         std::tie(n, s, e, w) = boundary;
         DistDir closest;
         if (directions_.at(Direction::N)
             && (i - n) * north_south_resolution_ < mindist) {
-            mindist = std::lround((i - n) * north_south_resolution_);
+            mindist = (i - n) * north_south_resolution_;
             closest = std::make_tuple(mindist, Direction::N);
         }
         if (directions_.at(Direction::S)
             && (s - i) * north_south_resolution_ < mindist) {
-            mindist = std::lround((s - i) * north_south_resolution_);
+            mindist = (s - i) * north_south_resolution_;
             closest = std::make_tuple(mindist, Direction::S);
         }
         if (directions_.at(Direction::E) && (e - j) * west_east_resolution_ < mindist) {
-            mindist = std::lround((e - j) * west_east_resolution_);
+            mindist = (e - j) * west_east_resolution_;
             closest = std::make_tuple(mindist, Direction::E);
         }
         if (directions_.at(Direction::W) && (j - w) * west_east_resolution_ < mindist) {
-            mindist = std::lround((j - w) * west_east_resolution_);
+            mindist = (j - w) * west_east_resolution_;
             closest = std::make_tuple(mindist, Direction::W);
         }
         return closest;
@@ -221,6 +223,8 @@ public:
                 min_dist_dir = std::make_tuple(dist, dir);
             }
         }
+        if (std::get<1>(min_dist_dir) != Direction::None)
+            std::get<0>(min_dist_dir) = std::lround(std::get<0>(min_dist_dir));
         escape_dist_dirs.at(step) = std::make_tuple(false, min_dist_dir);
     }
     /**
